@@ -14,6 +14,11 @@ def shape_from_image(v):
     symmetric 2x2 matrix), in image coordinates.  ``flags`` lists
     ambiguity conditions the caller should honour."""
     out = {'flags': set()}
+    if np.all(v >= 0):
+        # non-negative weights: the second-moment matrix is positive
+        # semidefinite by definition, a negative determinant can only be
+        # rounding noise
+        out['flags'].add('nonnegative_weights')
     ny, nx = v.shape
     yy, xx = np.mgrid[0:ny, 0:nx].astype(float)
     m00 = float(v.sum())
